@@ -105,8 +105,9 @@ class BuilderNF:
         return canon(t, self.memo)
 
     # -- deep term collection ---------------------------------------------------------------
-    def deep_terms(self, t, seen=None):
-        """All terms reachable from t through heap objects (final contents)."""
+    def deep_terms(self, t, seen=None, values_only=False):
+        """All terms reachable from t through heap objects (final contents).  ``values_only``: follow only what can become
+        part of the value - not the tests that choose between alternatives, nor computed dict keys."""
         if seen is None:
             seen = set()
         out = []
@@ -115,6 +116,11 @@ class BuilderNF:
         while stack:
             x = stack.pop()
             if not isinstance(x, tuple) or not x:
+                continue
+            if values_only and x[0] == "cond" and self.c(x)[0] != "single":
+                # a choice between alternatives: the test selects, only the alternatives can become the value
+                stack.append(x[2])
+                stack.append(x[3])
                 continue
             out.append(x)
             if x[0] == "ref":
@@ -133,7 +139,8 @@ class BuilderNF:
                                     stack.append(it)
                                 segs_terms(s[2])
                             elif s[0] == "if":
-                                stack.append(s[1])
+                                if not values_only:
+                                    stack.append(s[1])
                                 segs_terms(s[2])
                                 segs_terms(s[3])
                             elif s[0] == "op":
@@ -143,8 +150,11 @@ class BuilderNF:
                 elif isinstance(o, HDict):
                     for k, v, g in nf.dict_content(I, x, self.tree):
                         stack.append(v)
-                        if isinstance(k, tuple):
+                        if isinstance(k, tuple) and not values_only:
                             stack.append(k)
+            elif x[0] == "cond" and values_only:
+                stack.append(x[2])
+                stack.append(x[3])
             else:
                 for y in x:
                     if isinstance(y, tuple):
@@ -178,12 +188,26 @@ class BuilderNF:
             out.extend(self.deep_terms(r, seen))
         return out
 
-    def reads(self, b: Branch, terms=None):
-        """{(owner term, kind): set of read modes} with owner canonical."""
+    def reads(self, b: Branch, terms=None, values_only=False):
+        """{(owner term, kind): set of read modes} with owner canonical.  ``values_only``: reads in the tests of
+        conditional terms do not count (they select, they are not part of the value)."""
         out: dict = {}
+
+        def value_subterms(t):
+            if not isinstance(t, tuple) or not t:
+                return
+            yield t
+            if t[0] == "cond":
+                yield from value_subterms(t[2])
+                yield from value_subterms(t[3])
+                return
+            for x in t:
+                if isinstance(x, tuple):
+                    yield from value_subterms(x)
+
         for t in (terms if terms is not None else self.branch_terms(b)):
             ct = self.c(t)
-            for s in nf.subterms(ct):
+            for s in (value_subterms(ct) if values_only else nf.subterms(ct)):
                 if s[0] in ("items", "single", "first"):
                     out.setdefault((s[1], s[2]), set()).add(s[0])
         return out
@@ -245,8 +269,8 @@ def rule_rw(rep: Report, rid="C03.rw", rid_flow="C03.flow") -> None:
         ret_terms = []
         seen = set()
         for v, line, gs in br.returns:
-            ret_terms.extend(b.deep_terms(v, seen))
-        ret_reads = b.reads(br, ret_terms)
+            ret_terms.extend(b.deep_terms(v, seen, values_only=True))
+        ret_reads = b.reads(br, ret_terms, values_only=True)
         owners = {b.node: p}
         # rules whose nodes are consumed in this branch: p itself plus pass-through children (recursively)
         todo = [(b.node, p)]
@@ -280,6 +304,19 @@ def rule_rw(rep: Report, rid="C03.rw", rid_flow="C03.flow") -> None:
                     flow_ok = bool(rr) and (m not in "*+" or "items" in rr)
                 rep.ob(rid_flow, f"{what}{via} reaches the value the branch returns", flow_ok, **_kw(b, br.line),
                        expected="child flows into the returned node", found=sorted(rr) or "read but not part of the result")
+        # a branch gives up (returns None) only when a child it needs is absent, and produces its node whenever they are present
+        def presence(c):
+            cc = b.c(c)
+            return cc[0] in ("single", "first", "items") and _owner_rule(b, cc[1], p) is not None
+        for v, line, gs in br.returns:
+            if is_const(v, None):
+                ok = any(presence(c) and pol is False for c, pol in gs)
+                rep.ob(rid, f"{p}: the node is dropped (None) only when a child it needs is missing", ok, **_kw(b, line),
+                       expected="return None under 'not <child>'", found=[(fmt(b.c(c), b.I), pol) for c, pol in gs])
+            else:
+                ok = all(presence(c) and pol is True for c, pol in gs)
+                rep.ob(rid, f"{p}: the node is produced whenever the children it needs are present", ok, **_kw(b, line),
+                       expected="no condition other than 'child present'", found=[(fmt(b.c(c), b.I), pol) for c, pol in gs])
         # reads of kinds the parser never puts there
         for (owner, k), modes in sorted(reads.items(), key=str):
             r = _owner_rule(b, owner, p)
@@ -349,6 +386,48 @@ def rule_fields(rep: Report, rid="C03.fields") -> None:
             got = b.c(nf.strip_dropnone(d[k][0])) if k in d else None
             rep.ob(rid, f"{p}.{k} comes from " + fmt(want, I), got == want, **_kw(b, mr[1]),
                    expected=fmt(want, I), found=fmt(got, I) if got is not None else "field missing")
+    # Step argument: the data table child under 'dataTable', else the doc string child under 'docString', else nothing
+    br = b.branches.get("Step")
+    mr = _main_return(b, br) if br else None
+    if mr is not None:
+        o = I.obj(nf.strip_dropnone(mr[0]))
+        fixed = {"id", "location", "keyword", "keywordType", "text"}
+        extra = [(k, v) for k, v, g in nf.dict_content(I, nf.strip_dropnone(mr[0]), b.tree) if not (is_const(k) and k[1] in fixed)] if isinstance(o, HDict) else []
+        dt_i, dt_f = items(node, "DataTable"), ("first", node, "DataTable")
+        ds_i, ds_f = items(node, "DocString"), ("first", node, "DocString")
+        ok = bool(extra)
+        found = []
+        cases = None
+        if extra:
+            # all extra entries decided together over the presence of the two children
+            pair = ("tuple", tuple(("tuple", (b.c(k), b.c(nf.strip_dropnone(v)))) for k, v in extra))
+            cases = nf.decisions(pair)
+        for assign, val in cases or []:
+            if set(assign) - {dt_i, dt_f, ds_i, ds_f}:
+                ok = False
+                found.append(("depends on", [fmt(a, I) for a in assign]))
+                break
+            has_dt = assign.get(dt_i, False) and assign.get(dt_f, True)
+            has_ds = assign.get(ds_i, False) and assign.get(ds_f, True)
+            entries = {}
+            for kv in val[1]:
+                k, v = kv[1]
+                if not is_const(v, None):
+                    entries[k[1] if is_const(k) else fmt(k, I)] = v
+            def is_child(v, kind):
+                return b.c(v) in (("first", node, kind), single(node, kind))
+            if has_dt:
+                good = set(entries) == {"dataTable"} and is_child(entries["dataTable"], "DataTable")
+            elif has_ds:
+                good = set(entries) == {"docString"} and is_child(entries["docString"], "DocString")
+            else:
+                good = not entries
+            if not good:
+                ok = False
+                found.append(({"DataTable": has_dt, "DocString": has_ds}, {k: fmt(v, I) for k, v in entries.items()}))
+        rep.ob(rid, "Step: the argument is the DataTable child under 'dataTable', else the DocString child under 'docString', else absent", ok,
+               **_kw(b, mr[1]), expected="{'dataTable': node.get_single('DataTable')} | {'docString': node.get_single('DocString')} | {}",
+               found=found[:3] or ("as expected" if ok else "no argument entry"))
     # comments: collected by build() from Comment tokens, text = matched_text, location = token location
     I2 = new_interp()
     tree, rv, _ = I2.run(f"{BQ}.build")
